@@ -386,10 +386,13 @@ func execC15(w *c15W, x *Exec) *Outcome {
 		// A traversal that never finishes with divided buffer capacities counts
 		// only if it is confirmed: unlike C07 this check has no scaled-up
 		// workload to confirm with at production constants, so the same
-		// workload is run again with the capacities of the code as written. A
-		// hang that needs the small buffers (the per-prefix pipelines merged in
-		// request order wait for each other once a buffer of one slot is full)
-		// is recorded as not confirmed and not reported.
+		// workload is run again with the capacities of the code as written and
+		// that run decides (its rows are checked too). The hangs seen this way
+		// all have a link to a row that does not exist and are the recorded
+		// finding (known_findings.json: the order queue fills behind a lookup
+		// that gets no answer) reached with fewer lookups because the queue is
+		// smaller; at the production constants the same tables need more than
+		// 250 queued lookups, which the thorough tier does reach.
 		cfg1 := cfg
 		cfg1.CapDiv = 1
 		res1 := run(cfg1)
@@ -416,7 +419,7 @@ func execC15(w *c15W, x *Exec) *Outcome {
 	case res.Verdict == simrt.Budget:
 		o.Inconclusive = "step budget"
 	case res.Verdict != simrt.Done || !closed:
-		kind := shapeOfTables(w)
+		kind := shapeOfTables(w) + "/" + stalledWhere(res.LiveSites)
 		o.Violation = &Violation{Class: "C15/never-finishes", Signature: fmt.Sprintf("C15/never-finishes/%s/%s", firstMove(stmts), kind), Detail: fmt.Sprintf("%s: verdict %s closed %v; goroutines left: %v", names, res.Verdict, closed, res.LiveSites)}
 	default:
 		if d := spec.Check(rows); d != "" {
@@ -446,6 +449,26 @@ func firstMove(stmts []*gripql.GraphStatement) string {
 		return "no-move"
 	}
 	return l[0]
+}
+
+// stalledWhere names the place a traversal that never finishes is stuck at, so
+// that the recorded finding (the request-order multiplexer waits for the answer
+// to a lookup of a row that does not exist while the requester waits for room in
+// the order queue) does not cover any other hang.
+func stalledWhere(sites []string) string {
+	muxWaits, putWaits := false, false
+	for _, s := range sites {
+		if strings.Contains(s, "channel_mux.go:runMux:recv") {
+			muxWaits = true
+		}
+		if strings.Contains(s, "channel_mux.go:ChannelMux.Put:send") {
+			putWaits = true
+		}
+	}
+	if muxWaits && putWaits {
+		return "order-mux-waits-for-an-answer-and-requester-waits-for-the-mux"
+	}
+	return "elsewhere"
 }
 
 func shapeOfTables(w *c15W) string {
